@@ -1,4 +1,6 @@
+mod c10;
 mod core;
+mod refpos;
 mod synchecks;
 mod texts;
 
@@ -7,8 +9,10 @@ use crate::core::{Check, Tier};
 static C01: synchecks::SynCheck = synchecks::SynCheck { mode: synchecks::Mode::Lossless };
 static C02: synchecks::SynCheck = synchecks::SynCheck { mode: synchecks::Mode::Totality };
 
+static C10: c10::C10 = c10::C10;
+
 fn registry() -> Vec<&'static dyn Check> {
-    vec![&C01, &C02]
+    vec![&C01, &C02, &C10]
 }
 
 fn usage() -> ! {
